@@ -155,6 +155,7 @@ type Step struct {
 	Post  *Snap      `json:"post,omitempty"`
 	Notes []Note     `json:"notes,omitempty"`
 	VT    int64      `json:"vtMs"` // virtual milliseconds the request took
+	H     string     `json:"h,omitempty"` // schedule fingerprint (enabled sets of every scheduling point so far) once the step is over
 }
 
 // Sess is the driver's ghost record of one session it created.
@@ -317,6 +318,7 @@ func (w *World) execInto(supis []string, h *HistRun, ops []Op, snapFrom int, wit
 		}
 		if quiesce {
 			vs.Quiesce()
+			st.H = vs.CurHash()
 		}
 		st.Notes = notesSince(n0)
 		if i >= snapFrom {
@@ -353,6 +355,8 @@ type HistOut struct {
 	Deadlock []string  `json:"deadlock,omitempty"`
 	Points   int       `json:"points"`
 	Hash     uint64    `json:"hash"`
+	PrevH    string    `json:"prevH,omitempty"` // schedule fingerprint when the last operation started (= parent history's final fingerprint)
+	LastH    string    `json:"lastH,omitempty"`
 }
 
 // HistOracle: per check; step oracle + canonical state + successor info.
@@ -403,6 +407,10 @@ func runHist(t *testing.T, a HistArgs) HistOut {
 		}
 		if n := len(h.Steps); n > 0 {
 			out.Last = &h.Steps[n-1]
+			out.LastH = h.Steps[n-1].H
+			if n > 1 {
+				out.PrevH = h.Steps[n-2].H
+			}
 		}
 		return nil
 	})
@@ -452,11 +460,13 @@ type BFSStats struct {
 	Samples                           []any
 	Outcomes                          map[string]int
 	EngineErrs                        int
+	ReplayChecked                     int // transitions whose replayed prefix was compared with the parent execution's schedule fingerprint
 }
 
 type bfsNode struct {
 	ops  []Op
 	info json.RawMessage
+	h    string // schedule fingerprint at the end of the history
 }
 
 // RunBFS explores all histories of the spec up to MaxDepth with canonical-state deduplication.
@@ -466,6 +476,7 @@ func RunBFS(p *Pool, sp BFSSpec, rep *Report, st *BFSStats) {
 		st.Outcomes = map[string]int{}
 	}
 	seen := map[string]bool{}
+	replay0 := st.ReplayChecked
 	// initial state
 	mk := func(ops []Op) Job {
 		return Job{Kind: "hist", Check: sp.Check, Args: mustJSON(HistArgs{Cfg: sp.Cfg, Supis: sp.Supis, Ops: ops, Oracle: sp.Oracle, Gor: sp.Gor, All: len(ops) == len(sp.Prefix)})}
@@ -508,15 +519,17 @@ func RunBFS(p *Pool, sp BFSSpec, rep *Report, st *BFSStats) {
 	seen[root.Key] = true
 	st.States++
 	ib, _ := json.Marshal(root.Info)
-	frontier := []bfsNode{{ops: sp.Prefix, info: ib}}
+	frontier := []bfsNode{{ops: sp.Prefix, info: ib, h: root.LastH}}
 	for depth := 0; depth < sp.MaxDepth && len(frontier) > 0; depth++ {
 		var jobs []Job
 		var jops [][]Op
+		var jparent []string
 		for _, n := range frontier {
 			for _, op := range sp.Alphabet(n.info, depth) {
 				ops := append(append([]Op(nil), n.ops...), op)
 				jobs = append(jobs, mk(ops))
 				jops = append(jops, ops)
+				jparent = append(jparent, n.h)
 			}
 		}
 		if sp.MaxTrans > 0 && st.Transitions+len(jobs) > sp.MaxTrans {
@@ -542,6 +555,16 @@ func RunBFS(p *Pool, sp BFSSpec, rep *Report, st *BFSStats) {
 			if !ok {
 				continue
 			}
+			// determinism: replaying the parent history in a fresh world must meet exactly the scheduling points
+			// (enabled sets) the parent execution met; anything else is an engine error, never a verdict
+			if out.PrevH != "" && jparent[i] != "" {
+				st.ReplayChecked++
+				if out.PrevH != jparent[i] {
+					rep.EngineError(fmt.Sprintf("%s: replay divergence: the prefix of %v ended with schedule fingerprint %s, the parent execution with %s", sp.Name, jops[i], out.PrevH, jparent[i]))
+					st.EngineErrs++
+					continue
+				}
+			}
 			if out.Last != nil {
 				st.Outcomes[fmt.Sprintf("%s:%d", out.Last.Op.K, out.Last.Resp.Code)]++
 			}
@@ -555,7 +578,7 @@ func RunBFS(p *Pool, sp BFSSpec, rep *Report, st *BFSStats) {
 			if !seen[out.Key] {
 				seen[out.Key] = true
 				st.States++
-				next = append(next, bfsNode{ops: jops[i], info: ib})
+				next = append(next, bfsNode{ops: jops[i], info: ib, h: out.LastH})
 			}
 		}
 		st.PerLevel = append(st.PerLevel, len(jobs))
@@ -567,6 +590,10 @@ func RunBFS(p *Pool, sp BFSSpec, rep *Report, st *BFSStats) {
 			break
 		}
 	}
+	rep.mu.Lock()
+	prev, _ := rep.Cov["prefix_replays_compared_with_parent_execution"].(int)
+	rep.Cov["prefix_replays_compared_with_parent_execution"] = prev + st.ReplayChecked - replay0
+	rep.mu.Unlock()
 }
 
 func sortedKeys[V any](m map[string]V) []string {
